@@ -367,8 +367,10 @@ Proof.
   { unfold check_compatibility. destruct H as [H1 H2].
     rewrite <- (forallb_perm _ a b H2). destruct (forallb _ a); constructor. split; assumption. }
   clear a b H; intros a b H. apply req_bind.
-  { unfold check_links. obs H. destruct (lookup "types" a) as [[| | | |u c kn ad| | |]|]; try (constructor; exact H).
-    destruct kn; simpl; [|constructor]. destruct ad; simpl; constructor. exact H. }
+  { unfold check_links, null_under_nullable. obs H.
+    destruct (lookup "types" a) as [[| | | |u c kn ad| | |]|]; try (constructor; exact H).
+    destruct kn; simpl; [|constructor].
+    match goal with |- context [negb ?c] => destruct c end; simpl; constructor. exact H. }
   clear a b H; intros a b H.
   destruct (n_kind n).
   - unfold check_additional_properties. obs H.
@@ -1059,8 +1061,11 @@ Qed.
 
 (* the checker *)
 Definition compat_cond (n : node) (m : cmap) : bool := forallb (fun p => compat_ok (fst p) (n_kind n)) m.
-Definition links_cond (m : cmap) : bool :=
-  match lookup "types" m with Some (CTypes _ _ known fits) => known && fits | _ => true end.
+Definition links_cond (n : node) (m : cmap) : bool :=
+  match lookup "types" m with
+  | Some (CTypes _ _ known fits) => known && (fits || null_under_nullable n m)
+  | _ => true
+  end.
 Definition final_cond (n : node) (m : cmap) : bool :=
   match n_kind n with
   | NObject => is_ok (check_additional_properties m)
@@ -1068,12 +1073,13 @@ Definition final_cond (n : node) (m : cmap) : bool :=
   | _ => is_ok (check_literal_node n m)
   end.
 Lemma check_schema_node_spec : forall n m,
-  is_ok (check_schema_node n m) = compat_cond n m && links_cond m && final_cond n m.
+  is_ok (check_schema_node n m) = compat_cond n m && links_cond n m && final_cond n m.
 Proof.
   intros n m. unfold check_schema_node, compat_cond, links_cond, final_cond, check_compatibility, check_links.
   destruct (forallb _ m); simpl; [|reflexivity].
   destruct (lookup "types" m) as [[| | | |u c kn ad| | |]|]; simpl; try (destruct (n_kind n); reflexivity).
-  destruct kn; simpl; [|reflexivity]. destruct ad; simpl; [|reflexivity]. destruct (n_kind n); reflexivity.
+  destruct kn; simpl; [|reflexivity].
+  destruct (ad || null_under_nullable n m); simpl; [|reflexivity]. destruct (n_kind n); reflexivity.
 Qed.
 
 (* ================================================================== the pipeline after the loader, in normal form *)
@@ -1089,7 +1095,7 @@ Definition post_cond (n : node) (m : cmap) : bool :=
   (allowed_cond (M5 n m) && (any_cond n (M5 n m) && (ex_cond "exclusiveMinimum" "min" (M5 n m) &&
   (ex_cond "exclusiveMaximum" "max" (M8 n m) && (pair_cond (M9 n m) && (opt_cond n (M9 n m) &&
   (ea_cond n (M9 n m) && (allof_cond n (M9 n m) &&
-  (compat_cond n (MF n m) && links_cond (MF n m) && final_cond n (MF n m))))))))))))).
+  (compat_cond n (MF n m) && links_cond n (MF n m) && final_cond n (MF n m))))))))))))).
 
 Lemma is_format_cases : forall s, is_format s = true ->
   s = "email" \/ s = "uri" \/ s = "uuid" \/ s = "date" \/ s = "datetime".
@@ -1969,12 +1975,6 @@ Proof.
   rewrite lookup_M1_types. unfold r_types. destruct (find_rule "or" R) as [[| | | | |u c a|]|]; reflexivity.
 Qed.
 
-Definition r_links : bool :=
-  match r_types with Some (CTypes _ _ known fits) => known && fits | _ => true end.
-
-Lemma stage_links : links_cond (MF n (entries R)) = r_links.
-Proof. unfold links_cond, r_links. rewrite lookup_MF_types. reflexivity. Qed.
-
 
 Definition is_none {A} (o : option A) : bool := match o with None => true | Some _ => false end.
 
@@ -2024,6 +2024,21 @@ Proof.
   rewrite lookup_MF_plain by reflexivity. rewrite lookup_M2_bool by reflexivity. unfold flag_true.
   destruct (get_bool "nullable" R) as [[|]|]; reflexivity.
 Qed.
+
+(* fix d925ea9: a null example under nullable: true fits whatever the alternatives are *)
+Definition r_null : bool := flag_true "nullable" R && nkind_eqb (n_kind n) NNull.
+
+Lemma null_under_nullable_MF : null_under_nullable n (MF n (entries R)) = r_null.
+Proof.
+  unfold null_under_nullable, r_null. rewrite lookup_MF_nullable.
+  destruct (flag_true "nullable" R); reflexivity.
+Qed.
+
+Definition r_links : bool :=
+  match r_types with Some (CTypes _ _ known fits) => known && (fits || r_null) | _ => true end.
+
+Lemma stage_links : links_cond n (MF n (entries R)) = r_links.
+Proof. unfold links_cond, r_links. rewrite lookup_MF_types, null_under_nullable_MF. reflexivity. Qed.
 
 Definition r_validators : bool :=
   match get_nat "minLength" R with Some v => negb (Nat.ltb (n_strlen n) v) | None => true end
@@ -3043,11 +3058,14 @@ Qed.
 Lemma Sob_parts :
   match get_nat "minItems" R with Some v => Nat.leb v (n_children n) | None => true end = true /\
   match get_nat "maxItems" R with Some v => Nat.leb (n_children n) v | None => true end = true /\
-  match find_rule "or" R with Some (VOrList _ _ a) => a | _ => true end = true.
+  match find_rule "or" R with
+  | Some (VOrList _ _ a) => a || (flag_true "nullable" R && nkind_eqb (n_kind n) NNull)
+  | _ => true
+  end = true.
 Proof.
   pose proof Sob as X. unfold example_obeys in X.
   apply andb_true_iff in X. destruct X as [X H3]. apply andb_true_iff in X. destruct X as [X H2].
-  apply andb_true_iff in X. destruct X as [X H1]. auto.
+  apply andb_true_iff in X. destruct X as [X H1]. split; [exact H1|split; [exact H2|exact H3]].
 Qed.
 
 Lemma B_ea : r_ea n R = true.
@@ -3341,6 +3359,21 @@ Example accepted_wrong_value_kind :
                        n_matches := true; n_in_enum := false; n_formats := [] |} [("regex", VNull)]) = true /\
   is_ok (check_node ex_empty_object [("additionalProperties", VNull)]) = true.
 Proof. vm_compute. split; reflexivity. Qed.
+
+(* fix d925ea9:  null // {or: ["string", "integer"], nullable: true}  and  null // {type: "@t", nullable: true}
+   are accepted (no alternative has the kind null); without nullable both are refused with 1301 *)
+Definition ex_null := mk_node NNull PRoot 0 (0%Z, 0) 0 0.                  (* null *)
+Example accepted_null_under_nullable :
+  is_ok (check_node ex_null [("or", VOrList false 2 false); ("nullable", VBool true)]) = true /\
+  spec_ok ex_null [("or", VOrList false 2 false); ("nullable", VBool true)] = true /\
+  in_scope ex_null [("or", VOrList false 2 false); ("nullable", VBool true)] = true /\
+  is_ok (check_node ex_null [("type", VStr "@t"); ("nullable", VBool true)]) = true /\
+  spec_ok ex_null [("type", VStr "@t"); ("nullable", VBool true)] = true /\
+  check_node ex_null [("or", VOrList false 2 false)] = Err ErrIncorrectUserType /\
+  spec_ok ex_null [("or", VOrList false 2 false)] = false /\
+  check_node ex_null [("type", VStr "@t")] = Err ErrIncorrectUserType /\
+  spec_ok ex_null [("type", VStr "@t")] = false.
+Proof. vm_compute. repeat split; reflexivity. Qed.
 
 Print Assumptions verdict_permutation.
 Print Assumptions check_iff_spec.
